@@ -8,7 +8,7 @@
    st_done = the completed loads with their results, st_reqs = what each
    request computed under the lock (keys_set, use_cache_values),
    st_answers = what the loader answered to which task. *)
-From AG Require Import DLCache Loader LoaderProofs.
+From AG Require Import DLCache Loader LoaderProofs LoaderTraceProofs.
 Open Scope N_scope.
 
 (* no batch contains a key twice *)
@@ -91,6 +91,38 @@ Theorem C28_done_completes : forall cf st t r ks senders p,
     In (p_w p, result p r) (st_done (mdone cf st t r)).
 Proof. exact dl_done_completes. Qed.
 
+
+(* the trace specification (Loader.v: tstep / trace_ok, written without the
+   machine: reference cache fed from the trace, batches handed to the loader,
+   per-request cache snapshot) accepts EVERY trace of the machine, for every
+   schedule; [complete] may be claimed only when no task is left *)
+Theorem C28_machine_meets_spec : forall cf steps complete,
+    wf_cfg cf = true ->
+    (complete = true -> st_tasks (run cf steps) = []) ->
+    trace_ok cf t_init (combine steps (mtrace cf (init cf) steps)) complete = true.
+Proof. exact c28_machine_meets_spec. Qed.
+
+(* hence an observed schedule that agrees with the machine passes the checker *)
+Theorem C28_check_case_agree : forall cf l complete,
+    wf_cfg cf = true ->
+    (complete = true -> st_tasks (run cf (map fst l)) = []) ->
+    map snd l = mtrace cf (init cf) (map fst l) ->
+    trace_ok cf t_init l complete = true.
+Proof. exact c28_check_case_agree. Qed.
+
+(* what the specification demands of a load completing on a loader answer:
+   requested, not done, not cancelled; the answered batch was handed to the
+   loader and contains every key the cache did not serve; no foreign key; for
+   every requested key exactly the cached value, else the loader's, else none *)
+Theorem C28_spec_done_values : forall ts t vals w l,
+    done_ok ts (SDone t (LOk vals)) (w, WOk l) = true ->
+    mem w (t_done ts) = false /\ mem w (t_canc ts) = false /\
+    exists rq b, assoc w (t_reqs ts) = Some rq /\ assoc t (t_open ts) = Some b /\
+      (forall k, In k (r_need rq) -> In k b) /\
+      (forall k, In k (map fst l) -> In k (r_ks rq)) /\
+      (forall k, In k (r_ks rq) -> assoc k l = value_of (r_snap rq) vals k).
+Proof. exact done_ok_meaning. Qed.
+
 Theorem C28_nonvacuous :
   st_calls (run demo_cfg demo_steps) = [(1, [1; 2]); (0, [2]); (3, [0; 3])] /\
   st_done (run demo_cfg demo_steps) =
@@ -104,6 +136,11 @@ Check C28_batch_bound : forall cf steps t ks,
     (1 <= c_max cf)%nat -> In (t, ks) (st_calls (run cf steps)) ->
     (length ks < c_max cf + maxreq steps)%nat.
 
+Check C28_machine_meets_spec : forall cf steps complete,
+    wf_cfg cf = true ->
+    (complete = true -> st_tasks (run cf steps) = []) ->
+    trace_ok cf t_init (combine steps (mtrace cf (init cf) steps)) complete = true.
+
 Print Assumptions C28_no_dup_in_batch.
 Print Assumptions C28_batch_bound.
 Print Assumptions C28_every_key_loaded.
@@ -114,4 +151,7 @@ Print Assumptions C28_values.
 Print Assumptions C28_request_logs.
 Print Assumptions C28_progress.
 Print Assumptions C28_done_completes.
+Print Assumptions C28_machine_meets_spec.
+Print Assumptions C28_check_case_agree.
+Print Assumptions C28_spec_done_values.
 Print Assumptions C28_nonvacuous.
